@@ -55,6 +55,15 @@ def nonneg(s):
     raise ValueError("bad spec %r" % (s,))
 
 
+def has_sym(s):
+    t = s[0]
+    if t in ("x", "a"):
+        return True
+    if t in ("int", "rat"):
+        return False
+    return any(has_sym(u) for u in s[1:] if isinstance(u, list))
+
+
 def depth(s):
     t = s[0]
     if t in ("x", "a", "int", "rat"):
@@ -65,7 +74,7 @@ def depth(s):
 
 
 def unary_over(s):
-    out = [[u, s] for u in UNARY]
+    out = [[u, s] for u in UNARY if u != "uabs" or has_sym(s)]     # no unevaluated Abs of a number (see build)
     out += [["ipow", s, n] for n in IPOWS]
     if nonneg(s):
         out += [["rpow", s, p, q] for (p, q) in RPOWS]
@@ -125,7 +134,8 @@ def rand_spec(rng, d, want_nonneg=False):
         if k == 0:
             return ["abs", rand_spec(rng, d - 1)]
         if k == 1:
-            return ["uabs", rand_spec(rng, d - 1)]
+            u = rand_spec(rng, d - 1)
+            return ["uabs" if has_sym(u) else "abs", u]
         if k == 2:
             return ["exp", rand_spec(rng, d - 1)]
         if k == 3:
@@ -141,7 +151,8 @@ def rand_spec(rng, d, want_nonneg=False):
         return [op, a, b] if rng.random() < 0.5 else [op, b, a]
     k = rng.randrange(16)
     if k < 6:
-        return [UNARY[k], rand_spec(rng, d - 1)]
+        u = rand_spec(rng, d - 1)
+        return [UNARY[k] if (UNARY[k] != "uabs" or has_sym(u)) else "abs", u]
     if k == 6:
         return ["ipow", rand_spec(rng, d - 1), rng.choice(IPOWS)]
     if k == 7:
@@ -215,6 +226,10 @@ def build(s):
             if t == "abs":
                 return _num_ok(sp.Abs(u))
             if t == "uabs":
+                # ESR wraps parameters and parameter expressions in an unevaluated Abs, never a number
+                # (and Abs(0, evaluate=False)**(-u) is re-evaluated by sympy to zoo**u on reading)
+                if not u.free_symbols:
+                    raise Reject("unevaluated Abs of a number")
                 return sp.Abs(u, evaluate=False)
             if t == "exp":
                 return _num_ok(sp.exp(u))
@@ -241,7 +256,14 @@ def build(s):
                 raise Reject("numeric exponent too large")
             return _num_ok(sp.Pow(u, v))
         raise ValueError("bad spec %r" % (s,))
-    e = rec(s)
+    try:
+        e = rec(s)
+    except (Reject, _Timeout):
+        raise
+    except Exception as ex:
+        # sympy's constructors evaluate numeric towers (sin(exp(exp(9))) ...) and can overflow; the
+        # constructors are not the code under test
+        raise Reject("sympy could not build it: %s" % type(ex).__name__)
     if e.has(sp.zoo, sp.nan, sp.oo, -sp.oo, sp.I):
         raise Reject("zoo/nan/oo/I")
     # sympy's own evaluation can leave the vocabulary (Abs(exp(u)) -> exp(re(u)) -> cos(atan2(0, .)) ...)
@@ -287,12 +309,13 @@ def eval_at(e, xv, par):
         return o.sym_eval(e, xv, par)
     except ValueError:
         pass
+    # Floats, not exact rationals: sympy would evaluate powers of exact rationals exactly (huge integers)
     sub = {}
     for sy in e.free_symbols:
         if sy.name == "x":
-            sub[sy] = sp.Rational(xv)
+            sub[sy] = sp.Float(xv, mp.mp.dps + 20)
         else:
-            sub[sy] = sp.Rational(par[int(sy.name[1:])])
+            sub[sy] = sp.Float(par[int(sy.name[1:])], mp.mp.dps + 20)
     try:
         v = sp.N(e.xreplace(sub), mp.mp.dps + 10)
         re_, im_ = v.as_real_imag()
@@ -328,6 +351,9 @@ def w_check(s):
     sp, o = E["sympy"], E["oracle"]
     import mpmath as mp
     res = {"spec": s, "status": "ok"}
+    if os.environ.get("ESRV_C12_TRACE"):          # debugging aid: last spec taken up by each worker
+        with open(os.path.join(os.environ["ESRV_C12_TRACE"], "spec.%d" % os.getpid()), "w") as f:
+            json.dump(s, f)
     try:
         with alarm(30):
             e = build(s)
@@ -376,6 +402,18 @@ def w_check(s):
             res["status"] = "skipped"
             return res
         except Exception as ex:
+            # control: does sympy read back its own standard string of e?  If that fails the same way the
+            # cause is sympy's evaluation of the expression, not ESR's printer or symbol table
+            try:
+                with alarm(60):
+                    sp.sympify(sp.sstr(e), locals={k: v for k, v in E["locs"].items() if k == "x" or k[0] == "a" and k[1:].isdigit()})
+                quirk = False
+            except Exception as ex2:
+                quirk = type(ex2) is type(ex)
+            if quirk:
+                res["status"] = "skipped"
+                res["sympy_quirk"] = "%s: %s" % (type(ex).__name__, ex)
+                return res
             return dict(res, status="fail", expr=str(e), reader=nm,
                         error="%s-stage reader cannot parse the printed string %r of %s: %s: %s" % (nm, s1, e, type(ex).__name__, ex))
         try:
@@ -408,6 +446,15 @@ def w_check(s):
     return res
 
 
+def w_check_safe(s):
+    """w_check; a resource problem of the machinery (memory cap of the worker, recursion depth)
+    makes the expression 'skipped', it is never reported as a failure of the code under test."""
+    try:
+        return w_check(s)
+    except (MemoryError, RecursionError, _Timeout):
+        return {"spec": s, "status": "skipped"}
+
+
 def w_print(s):
     E = env()
     try:
@@ -424,11 +471,17 @@ def w_print(s):
         return [r, "<%s: %s>" % (type(ex).__name__, ex)]
 
 
+def _limit_memory():
+    import resource
+    lim = int(os.environ.get("ESRV_C12_WORKER_MEM_GB", "6")) * 2 ** 30
+    resource.setrlimit(resource.RLIMIT_AS, (lim, lim))
+
+
 def pmap(fn, items, workers, chunk=64):
     if workers <= 1 or len(items) < 2 * chunk:
         return [fn(i) for i in items]
     ctx = mpr.get_context("fork")
-    with ctx.Pool(workers) as pool:
+    with ctx.Pool(workers, initializer=_limit_memory) as pool:
         return pool.map(fn, items, chunksize=chunk)
 
 
@@ -544,7 +597,7 @@ def check_specs(groups, p):
     t0 = time.time()
     allspecs = [s for g in groups for s in g["specs"]]
     fit_reader()
-    results = pmap(w_check, allspecs, W, chunk=32)
+    results = pmap(w_check_safe, allspecs, W, chunk=32)
     t1 = time.time()
     fails = [r for r in results if r["status"] == "fail"]
     out_groups, pos = [], 0
